@@ -84,6 +84,7 @@ struct PipeCfg
   bool in_fail_once = false; // ... only the first of them (transient error; stdio's error flag stays set)
   bool null_input = false; // the operation is given a NULL input stream (a file that could not be opened)
   long out_fail_at = -1; // >= 0: the output stream takes this many bytes in all, then writes fail (device full)
+  int fail_big = 0;   // 1: the chunk-buffer array cannot be allocated, 2: the hash file buffer cannot be allocated (std::bad_alloc), for the whole operation
   long fail_new = -2; // >= 0: the n-th allocation of the code under test fails once (std::bad_alloc); -1: count only; -2: off
 };
 
